@@ -22,6 +22,7 @@ type serveOpt struct {
 	CType   string ` + "`json:\"ctype\"`" + `   // strict: ContentType for wildcard responses
 	HErr    bool   ` + "`json:\"herr\"`" + `    // strict: handler returns an error
 	Foreign bool   ` + "`json:\"foreign\"`" + ` // strict: handler returns a response object of another operation
+	Entry   int    ` + "`json:\"entry\"`" + `   // 1: build the server through the other entry points of the package (Handler / HandlerFromMux / HandlerFromMuxWithBaseURL, RegisterHandlers) when no option beyond the base URL is needed
 	Warm    int    ` + "`json:\"warm\"`" + `    // the same request is served this many times on the same server first (state left behind shows in the observed one)
 }
 
@@ -762,8 +763,18 @@ func strictSI(opt serveOpt) ServerInterface {
 
 func init() {
 	nethttp := func(optsType string, si string, extra string) string {
+		newMux := map[string]string{"ChiServerOptions": "chi.NewRouter()", "GorillaServerOptions": "mux.NewRouter()", "StdHTTPServerOptions": "http.NewServeMux()"}[optsType]
 		return `
 func buildHandler(opt serveOpt) http.Handler {
+	if opt.Entry == 1 && opt.Mw == 0 && !opt.ErrH {
+		if opt.Base != "" {
+			return HandlerFromMuxWithBaseURL(` + si + `, ` + newMux + `, opt.Base)
+		}
+		if len(opt.CType)%2 == 0 {
+			return HandlerFromMux(` + si + `, ` + newMux + `)
+		}
+		return Handler(` + si + `)
+	}
 	o := ` + optsType + `{BaseURL: opt.Base, Middlewares: mwList(opt)}
 	if opt.ErrH {
 		o.ErrorHandlerFunc = func(w http.ResponseWriter, r *http.Request, err error) {
@@ -792,7 +803,11 @@ func serve(req wireReq, opt serveOpt) (out map[string]interface{}) {
 				out = map[string]interface{}{"regpanic": fmt.Sprint(r)}
 			}
 		}()
-		RegisterHandlersWithBaseURL(e, ` + si + `, opt.Base)
+		if opt.Entry == 1 && opt.Base == "" {
+			RegisterHandlers(e, ` + si + `)
+		} else {
+			RegisterHandlersWithBaseURL(e, ` + si + `, opt.Base)
+		}
 	}()
 	if out != nil {
 		return out
@@ -865,7 +880,11 @@ func serve(req wireReq, opt serveOpt) (out map[string]interface{}) {
 				out = map[string]interface{}{"regpanic": fmt.Sprint(r)}
 			}
 		}()
-		RegisterHandlersWithOptions(r, ` + si + `, o)
+		if opt.Entry == 1 && opt.Base == "" && opt.Mw == 0 && !opt.ErrH {
+			RegisterHandlers(r, ` + si + `)
+		} else {
+			RegisterHandlersWithOptions(r, ` + si + `, o)
+		}
 	}()
 	if out != nil {
 		return out
@@ -928,7 +947,11 @@ func serve(req wireReq, opt serveOpt) (out map[string]interface{}) {
 				out = map[string]interface{}{"regpanic": fmt.Sprint(r)}
 			}
 		}()
-		RegisterHandlersWithOptions(app, ` + si + `, FiberServerOptions{BaseURL: opt.Base, Middlewares: ms})
+		if opt.Entry == 1 && opt.Base == "" && opt.Mw == 0 {
+			RegisterHandlers(app, ` + si + `)
+		} else {
+			RegisterHandlersWithOptions(app, ` + si + `, FiberServerOptions{BaseURL: opt.Base, Middlewares: ms})
+		}
 	}()
 	if out != nil {
 		return out
@@ -998,7 +1021,11 @@ func serve(req wireReq, opt serveOpt) (out map[string]interface{}) {
 				out = map[string]interface{}{"regpanic": fmt.Sprint(r)}
 			}
 		}()
-		RegisterHandlersWithOptions(app, ` + si + `, IrisServerOptions{BaseURL: opt.Base, Middlewares: ms})
+		if opt.Entry == 1 && opt.Base == "" && opt.Mw == 0 {
+			RegisterHandlers(app, ` + si + `)
+		} else {
+			RegisterHandlersWithOptions(app, ` + si + `, IrisServerOptions{BaseURL: opt.Base, Middlewares: ms})
+		}
 	}()
 	if out != nil {
 		return out
